@@ -250,7 +250,9 @@ def geometries(tier):
                         for nranks in (1, 2):
                             out.append(dict(bankbits=bankbits, rowbits=rowbits, colbits=colbits, address_align=align, nranks=nranks))
     # bank_byte_alignment variants: data width 64 bits -> 8 bytes per word
-    for bba in (0x100, 0x1000, 0x10000):
+    # (the large values put the bank field just below / at the top of the row-column address: cba_shift in
+    # [rca_bits - bank_bits, rca_bits])
+    for bba in (0x100, 0x1000, 0x10000, 0x100000, 0x200000, 0x400000, 0x800000):
         for colbits, align in ((10, 3), (11, 3), (9, 2)):
             out.append(dict(bankbits=3, rowbits=14, colbits=colbits, address_align=align, nranks=1, bank_byte_alignment=bba))
             out.append(dict(bankbits=2, rowbits=13, colbits=colbits, address_align=align, nranks=2, bank_byte_alignment=bba))
